@@ -46,7 +46,7 @@ def feature_cover():
 class C01(Check):
     PID = 'C01'
     RULE = ('feature cover (every operator x boundary situation x n in {1,2,3,7}) then seeded random formulas of the full grammar; '
-            'non-trivial = formula with >= 3 nodes whose arithmetic is exact and for which impl, model and rho were compared on every sample; '
+            '15% of the cases with bounded operators are written with explicit time units, another default unit and a sampling period given in another unit; non-trivial = formula with >= 3 nodes whose arithmetic is exact and for which impl, model and rho were compared on every sample; '
             'distinct by (formula, data, time column)')
 
     def gen_cases(self, rng, tier):
@@ -64,14 +64,25 @@ class C01(Check):
         cases = []
         for (f, n, nv, tk) in items:
             nv = need_vars(f, nv)
-            cases.append({'f': f, 'n': n, 'nv': nv, 'cols': fml.gen_trace(rng, nv, n), 'times': time_column(rng, n, tk)})
+            c = {'f': f, 'n': n, 'nv': nv, 'cols': fml.gen_trace(rng, nv, n), 'times': time_column(rng, n, tk)}
+            if rng.random() < 0.15:
+                from harness.c08 import spelling
+                sp = spelling(rng, f)
+                if sp:
+                    c['spell'] = sp
+            cases.append(c)
         return cases
+
+    def normalize(self, c):
+        if 'spell' in c and fml.to_sx(c['f']) != c['spell'].get('fkey'):
+            c = {k: v for k, v in c.items() if k != 'spell'}
+        return c
 
     def model_lines(self, c):
         return ['(off std %s %d %s)' % (fml.to_sx(c['f']), c['n'], fml.trace_sx(c['cols']))]
 
     def impl_cases(self, c):
-        return [offline_case(c['f'], c['cols'], c['times'], c['nv'])]
+        return [offline_case(c['f'], c['cols'], c['times'], c['nv'], **c.get('spell', {}))]
 
     def judge(self, c, mlines, ires):
         m = parse_fields(mlines[0])
